@@ -7,6 +7,7 @@ import Rc.Drv.C10
 import Rc.Drv.C11
 import Rc.Drv.C15
 import Rc.Drv.C17
+import Rc.Drv.C19
 import Rc.Drv.C18
 
 def dispatch (prop : String) : Option (List String → String) :=
@@ -15,6 +16,7 @@ def dispatch (prop : String) : Option (List String → String) :=
   | "C11" => some Rc.Drv.C11.handle
   | "C15" => some Rc.Drv.C15.handle
   | "C17" => some Rc.Drv.C17.handle
+  | "C19" => some Rc.Drv.C19.handle
   | "C18" => some Rc.Drv.C18.handle
   | _ => none
 
